@@ -74,14 +74,27 @@ impl DocumentBuilder {
         self.element_builder = Some(ElementBuilder::new(prefix, name));
     }
 
-    fn prefix(&mut self, prefix: &str, namespace_uri: &str, xot: &mut Xot) {
+    fn prefix(
+        &mut self,
+        prefix: &str,
+        namespace_uri: &str,
+        name_span: Span,
+        xot: &mut Xot,
+    ) -> Result<(), ParseError> {
         let prefix_id = xot.prefix_lookup.get_id_mut(prefix);
         let namespace_id = xot.namespace_lookup.get_id_mut(namespace_uri);
-        self.element_builder
-            .as_mut()
-            .unwrap()
-            .namespaces
-            .push((prefix_id, namespace_id));
+        let namespaces = &mut self.element_builder.as_mut().unwrap().namespaces;
+        // a namespace declaration is an attribute, and attributes are unique
+        if namespaces.iter().any(|(p, _)| *p == prefix_id) {
+            let attr_name = if prefix.is_empty() {
+                "xmlns".to_string()
+            } else {
+                format!("xmlns:{}", prefix)
+            };
+            return Err(ParseError::DuplicateAttribute(attr_name, name_span));
+        }
+        namespaces.push((prefix_id, namespace_id));
+        Ok(())
     }
 
     fn attribute(
@@ -713,10 +726,12 @@ impl Xot {
                             // a namespace declaration is an attribute: its value
                             // is normalized and has its references resolved
                             let uri = parse_attribute(value.as_str().into(), value.start())?;
-                            builder.prefix(local.as_str(), &uri, self);
+                            let name_span = Span::from_prefix_name(prefix, local);
+                            builder.prefix(local.as_str(), &uri, name_span, self)?;
                         } else if local.as_str() == "xmlns" {
                             let uri = parse_attribute(value.as_str().into(), value.start())?;
-                            builder.prefix("", &uri, self);
+                            let name_span = Span::from_prefix_name(prefix, local);
+                            builder.prefix("", &uri, name_span, self)?;
                         } else {
                             builder.attribute(prefix, local, value)?;
                         }
